@@ -75,12 +75,53 @@ func sameFloat(a float64, b float64) bool { return a == b || (a != a && b != b) 
     loopinvariant self.callStackSize == entry(self.callStackSize) && self.callStackLimitSize == entry(self.callStackLimitSize) && ghost(polls) >= entry(ghost(polls))
 @*/
 
+// Scope discipline of the evaluator (C11: after break, continue, return or a
+// thrown value later code runs with intact locals; C01 lexical scoping): every
+// evaluator method returns - normally or with an interrupt - in the module it
+// was entered in and with the scope stack as high as it found it.
+
+/*@ func (self *Interpreter) pushScope
+    serves C11, C01
+    assume-safety
+    ensures @pushed self.currentModule == old(self.currentModule) && len(self.currentModule.scopes) == old(len(self.currentModule.scopes))+1
+@*/
+
+/*@ func (self *Interpreter) popScope
+    serves C11, C01
+    assume-safety
+    ensures @popped self.currentModule == old(self.currentModule) && len(self.currentModule.scopes) == old(len(self.currentModule.scopes))-1
+@*/
+
+/*@ func (self *Interpreter) addVar
+    serves C11, C01
+    assume-safety
+    ensures @same-scopes self.currentModule == old(self.currentModule) && len(self.currentModule.scopes) == old(len(self.currentModule.scopes))
+@*/
+
+/*@ func (self Interpreter) clearScope
+    serves C11, C01
+    assume-safety
+    ensures @same-scopes self.currentModule == old(self.currentModule) && len(self.currentModule.scopes) == old(len(self.currentModule.scopes))
+@*/
+
+// (a call switches to the module and to the scopes of the callee - for a
+// closure to the scopes it captured - and switches back in a deferred
+// function; that it ends where it started is assumed here, not proved: the
+// restoring code goes through the module table by name)
+/*@ template for (self *Interpreter) ?*
+    except Execute, addVar, getVar, pushScope, popScope, clearScope, switchModule, execModule, instantiateSingleton, implBlock, importItem, functionDefinition, eventFunctionDefinition, checkCancelation, callFunc
+    serves C11, C01
+    dyncall-preserves self.currentModule, self.currentModule.scopes
+    ensures @scopes-balanced self.currentModule == old(self.currentModule) && len(self.currentModule.scopes) == old(len(self.currentModule.scopes))
+    loopinvariant self.currentModule == entry(self.currentModule) && len(self.currentModule.scopes) == entry(len(self.currentModule.scopes))
+@*/
+
 // Cancellation (C10, sequential part): the context is polled by every
 // statement and expression evaluation and at least once per iteration of
 // every loop, so a cancelled context is seen after a bounded amount of work.
 
 /*@ func (self *Interpreter) checkCancelation
-    serves C10
+    serves C10, C02
     requires self.cancelCtx != nil && *self.cancelCtx != nil
     ensures @cancellation-is-seen cancelled(*self.cancelCtx) <==> result != nil
     ensures @termination result != nil ==> *result != nil && (*result).Kind() == value.TerminateInterruptKind
@@ -93,21 +134,22 @@ func sameFloat(a float64, b float64) bool { return a == b || (a != a && b != b) 
 @*/
 
 /*@ func (self *Interpreter) loopStatement
-    serves C10
+    serves C10, C02
     loop 1 progress @iteration-polls ghost(polls) >= iterstart(ghost(polls))+1
 @*/
 
 /*@ func (self *Interpreter) whileStatement
-    serves C10
+    serves C10, C02
     loop 1 progress @iteration-polls ghost(polls) >= iterstart(ghost(polls))+1
 @*/
 
 /*@ func (self *Interpreter) forStatement
-    serves C10
+    serves C10, C02
     loop 1 progress @iteration-polls ghost(polls) >= iterstart(ghost(polls))+1
 @*/
 
 /*@ func (self *Interpreter) callFunc
+    assumed-ensures @scopes-balanced self.currentModule == old(self.currentModule) && len(self.currentModule.scopes) == old(len(self.currentModule.scopes))
     ensures @limit old(self.callStackSize) > old(self.callStackLimitSize) ==> ret1 != nil && ret0 == nil
 @*/
 
